@@ -17,7 +17,8 @@ META = {
                  "structural obligation ties integrator steps to compositions of the checked flows",
     "explanation": "bounded SMT check: state, time, metric and cubic model coefficients symbolic",
     "bounds": {"quick": {"dim": "1-2"}, "thorough": {"dim": "1-2"}},
-    "outside": "implicit integrators (exact symplecticity needs implicit differentiation of the solver), constrained "
+    "outside": "three-stage compositions with a dense 2x2 metric and uninterpreted Hessians (normal forms too large); "
+               "implicit integrators (exact symplecticity needs implicit differentiation of the solver), constrained "
                "integrator / curved manifolds (induced form on the cotangent bundle), dim > 2; 'a composition of "
                "symplectic maps is symplectic' is a trusted lemma",
     "stubs": ["LAPACK stubs", "SIN/COS uninterpreted with Pythagoras"],
@@ -47,6 +48,14 @@ def cases(tier):
                     continue
                 mk_ = "dense_eig" if (kind == "gauss" and dim == 2 and mkind == "dense") else mkind
                 G(f"flows/{kind}/{dim}/{mk_}", "flows", {"kind": kind, "dim": dim, "mkind": mk_})
+    # any smooth target: uninterpreted gradient with an uninterpreted symmetric Hessian
+    for kind, dim, mkind in (("euclid", 1, "diag"), ("euclid", 2, "diag"), ("euclid", 2, "dense"), ("gauss", 2, "diag")):
+        G(f"flows_uf/{kind}/{dim}/{mkind}", "flows", {"kind": kind, "dim": dim, "mkind": mkind, "uf": True})
+    for ik, kind, dim, mkind, n in (("leapfrog", "euclid", 2, "diag", 1), ("leapfrog", "euclid", 1, "diag", 2), ("symcomp1", "euclid", 1, "diag", 1),
+                                     ("leapfrog", "gauss", 1, "diag", 1), ("symcomp2", "euclid", 2, "diag", 1), ("symcomp3", "euclid", 1, "diag", 1),
+                                     ("leapfrog", "euclid", 2, "dense", 2), ("bcss4", "euclid", 2, "diag", 1), ("symcomp2", "gauss", 2, "diag", 1),
+                                     ("leapfrog", "euclid", 2, "diag", 3)):
+        G(f"step_uf/{ik}/{kind}/{dim}/{mkind}/n{n}", "step", {"ikind": ik, "kind": kind, "dim": dim, "mkind": mkind, "n": n, "uf": True})
     for ik in ("leapfrog", "symcomp1", "symcomp1h2", "symcomp2", "symcomp3", "bcss2", "bcss3", "bcss4"):
         G(f"structure/{ik}", "structure", {"ikind": ik}, timeout_s=300)
     steps = [("leapfrog", "euclid", 1, "diag", 1), ("leapfrog", "euclid", 2, "diag", 1), ("leapfrog", "euclid", 1, "diag", 2),
